@@ -14,6 +14,7 @@ import Driver.Value
 import Driver.Query
 import Driver.FSStore
 import Driver.Crash
+import Driver.Snapshot
 
 open Driver
 
@@ -21,7 +22,7 @@ def dispatch (line : String) : String :=
   match (line.splitOn " ").filter (· ≠ "") with
   | [] => "bad-op"
   | cmd :: args =>
-    let handlers : List (String → Option (P String)) := [cmdPre, cmdContent, cmdFormat, cmdExprJson, cmdPipeline, cmdProto2, cmdValue, cmdQuery, cmdFSStore, cmdCrash]
+    let handlers : List (String → Option (P String)) := [cmdPre, cmdContent, cmdFormat, cmdExprJson, cmdPipeline, cmdProto2, cmdValue, cmdQuery, cmdFSStore, cmdCrash, cmdSnapshot]
     match handlers.findSome? (fun h => h cmd) with
     | none => "bad-op"
     | some p => match run p args with
